@@ -1240,7 +1240,6 @@ class CSSMatch(_DocumentNav):
         match = False
         has_ns = self.supports_namespaces()
         root = self.root
-        has_html_namespace = self.has_html_namespace
 
         # Walk parents looking for `lang` (HTML) or `xml:lang` XML property.
         parent = el  # type: bs4.Tag | None
@@ -1264,7 +1263,6 @@ class CSSMatch(_DocumentNav):
 
             if parent is None:
                 root = last
-                has_html_namespace = self.has_html_ns(root)
                 parent = last
                 break
 
@@ -1277,14 +1275,18 @@ class CSSMatch(_DocumentNav):
                     cached = True
 
         # If we couldn't find a language, and the document is HTML, look to meta to determine language.
-        if (
-            found_lang is None and not cached and
-            (not self.is_xml or (has_html_namespace and root and root.name == 'html'))
-        ):
+        if found_lang is None and not cached and self.is_html:
             # Find head
             found = False
             for tag in ('html', 'head'):
                 found = False
+                if (
+                    tag == 'html' and parent is not None and not self.is_doc(parent) and
+                    self.get_tag(parent) == 'html' and self.is_html_tag(parent)
+                ):
+                    # The walk ended on the root element of an `iframe` document
+                    found = True
+                    continue
                 for child in self.get_tag_children(parent, no_iframe=self.is_html):
                     if self.get_tag(child) == tag and self.is_html_tag(child):
                         found = True
